@@ -731,6 +731,20 @@ func runC13(r *Run, verifDir string) {
 			return ""
 		}
 		a, b := role(c.Call.Args[0]), role(c.Call.Args[1])
+		// which outcome of the test lets the candidate replace the best: the edge on the way to the assignment of the
+		// candidate (a `continue` guard replaces on its false edge)
+		if repl, known := replacementOutcome(nv, bo); known && !repl {
+			switch op {
+			case token.LSS:
+				op = token.GEQ
+			case token.LEQ:
+				op = token.GTR
+			case token.GTR:
+				op = token.LEQ
+			case token.GEQ:
+				op = token.LSS
+			}
+		}
 		greater := op == token.GTR || op == token.GEQ
 		smaller := op == token.LSS || op == token.LEQ
 		switch {
@@ -1501,4 +1515,102 @@ func c13N9(r *Run) {
 	if n == 0 {
 		r.Unk("C13.N9", "kmipclient/options", token.NoPos, "no option closure found")
 	}
+}
+
+// replacementOutcome: the outcome of the comparison cmp under which the loop-carried "best" is replaced by the
+// candidate: the phi edge that carries a candidate (an element address or a copy) comes from a block dominated by one
+// edge of cmp.
+func replacementOutcome(fn *ssa.Function, cmp *ssa.BinOp) (bool, bool) {
+	var res, known bool
+	allInstrs(fn, func(in ssa.Instruction) {
+		ph, ok := in.(*ssa.Phi)
+		if !ok || known {
+			return
+		}
+		// only the loop-carried "best": a pointer phi with a nil edge, or an index phi with a negative sentinel edge
+		// (directly, or through the loop-header phi it feeds)
+		isBest := false
+		var hasSentinel func(p2 *ssa.Phi, d int) bool
+		hasSentinel = func(p2 *ssa.Phi, d int) bool {
+			for _, e := range p2.Edges {
+				if isNilConst(e) {
+					return true
+				}
+				if k, isK := constIntVal(e); isK && k < 0 {
+					return true
+				}
+				if p3, isP := e.(*ssa.Phi); isP && p3 != p2 && d < 2 && hasSentinel(p3, d+1) {
+					return true
+				}
+			}
+			return false
+		}
+		isBest = hasSentinel(ph, 0)
+		if !isBest {
+			return
+		}
+		for i, e := range ph.Edges {
+			switch e.(type) {
+			case *ssa.IndexAddr, *ssa.Alloc:
+			default:
+				bin, isBin := e.(*ssa.BinOp)
+				if !isBin || bin.X == ssa.Value(ph) {
+					continue // not a candidate (the phi itself, or the loop counter's own increment)
+				}
+				// an index candidate (i) for the index form: phi of int
+				if b, isBasic := ph.Type().Underlying().(*types.Basic); !isBasic || b.Info()&types.IsInteger == 0 {
+					continue
+				}
+			}
+			pred := ph.Block().Preds[i]
+			conds := dominatingConds(pred)
+			if c, isTrue, ok := edgeTaken(pred, ph.Block()); ok {
+				conds = append(conds, domCond{c, isTrue, pred})
+			}
+			for _, dc := range conds {
+				if dc.cond == ssa.Value(cmp) {
+					res, known = dc.outcome, true
+				}
+			}
+			if known {
+				continue
+			}
+			// not dominated (the guard is one operand of a `a && b` / `a || b`): within one iteration — without going
+			// through the loop header again — the assignment is reachable from only one edge of the comparison
+			var ifBlk *ssa.BasicBlock
+			for _, ref := range *cmp.Referrers() {
+				if iff, ok := ref.(*ssa.If); ok {
+					ifBlk = iff.Block()
+				}
+			}
+			if ifBlk == nil || len(ifBlk.Succs) != 2 {
+				continue
+			}
+			reach := func(from *ssa.BasicBlock) bool {
+				seen := map[*ssa.BasicBlock]bool{}
+				var walk func(b *ssa.BasicBlock) bool
+				walk = func(b *ssa.BasicBlock) bool {
+					if b == pred {
+						return true
+					}
+					if b == ph.Block() || seen[b] {
+						return false
+					}
+					seen[b] = true
+					for _, sc := range b.Succs {
+						if walk(sc) {
+							return true
+						}
+					}
+					return false
+				}
+				return walk(from)
+			}
+			t, f := reach(ifBlk.Succs[0]), reach(ifBlk.Succs[1])
+			if t != f {
+				res, known = t, true
+			}
+		}
+	})
+	return res, known
 }
